@@ -693,7 +693,7 @@ var c48Forms = []ddForm{
 	{"lit-int-sized", "UInt8", "7", "7"},
 	{"lit-string-widened", "String?", `"lit"`, `"lit"`},
 	{"self-optional-field-widened", "Int??", "self.o", "12"},
-	{"base-field", "Int", "base.f", "11"},        // only valid inside an attachment
+	{"base-field", "Int", "base.f", "11"},            // only valid inside an attachment
 	{"attachment-self-field", "Int", "self.g", "21"}, // attachment's own field
 }
 
@@ -1131,7 +1131,7 @@ func c48DestroyCases(env *mc.Env) []*c48Destroy {
 
 func init() {
 	mc.Register(&mc.Check{
-		ID: "C48",
+		ID:   "C48",
 		Rule: "part A: every event with one parameter (every listed type x every listed value) emitted from a function, a pre-condition, a post-condition and an imported contract, and every event with two parameters over all ordered type pairs (function and contract contexts; all four in thorough), run on both engines; each delivered event must carry the declared type ID, the declared field names in declaration order, field types equal to the declared ones, values that conform to the declared field type (recursive conformance check on the exported value) and, where stated, the exact value. Part B: every default ResourceDestroyed event with 1-2 default arguments over the allowed forms (literals, self.uuid, self.f, self.st.b, self.st.c.b, self.d[k], widened optional, base.f and attachment fields) on a resource whose fields are mutated after creation, and every containment tree (root destroyed directly / inside an array / inside an optional / by a callee; children in field, array, dictionary, optional, nil optional, attachment; grandchildren) where every resource has ResourceDestroyed(uuid, tag): exactly one event per destroyed resource with the values at destruction time, same order in both engines; non-trivial = distinct accepted case",
 		Assumptions: []string{
 			"cadence.Value.String() of exported values is the comparison format for expected values",
